@@ -260,6 +260,10 @@ def build(tier):
         us += layout_units('sse2', ['float', 'int', 'unsigned', 'double'], ['aligned_highp', 'packed_highp', 'aligned_lowp'])
         us += [named_unit('default'), named_unit('sse2')]
         us += layout_units('wxyz', ['float'], ['packed_highp'], Ls=(), shapes=[])
+        # every other configuration at least with float / packed_highp (all lengths and shapes): a typedef or member list changed under one macro only
+        for cfg in ('sizet', 'xyzw', 'ctorinit', 'swzfunc'): us += layout_units(cfg, ['float', 'int'], ['packed_highp'])
+        us += layout_units('defal', ['float'], ['defaultp', 'packed_highp'])
+        us += layout_units('avx2', ['float', 'double'], ['aligned_highp'])
     else:
         us += layout_units('default', SCAL, PQ)
         for cfg in ('sse2', 'avx', 'avx2', 'algen'): us += layout_units(cfg, SCAL, AQ + PQ)
